@@ -1,6 +1,7 @@
 import Dbg.Model.CompressGraph
 import Dbg.Lemmas.WalkProofs
 import Dbg.Lemmas.GraphSym
+import Dbg.Lemmas.GInvCompress
 /-! # C09 — Graph re-compression and node censoring are exact
 
 Proved so far for the model of `CompressFromGraph`: every walk only steps onto available nodes, removes them from the
@@ -665,12 +666,47 @@ theorem extOk_shape (g g' : G D) (h : sameShape g g') (nd : Node D) (valid : Opt
   rw [h.1]
   simp only [findLink_shape g g' h]
 
+theorem getValidExts_lt (g : G D) (id : Nat) (valid : Option (List Nat)) (e : Exts) (h : getValidExts g id valid = some e) :
+    e.val < 256 := by
+  cases hn : g.nodes[id]? with
+  | none => unfold getValidExts at h; rw [hn] at h; cases h
+  | some nd =>
+    rw [getValidExts_eq g id valid nd hn] at h
+    cases h
+    have hs : ∀ (acc : Exts) (d : Dir) (b : Nat), acc.val < 2 ^ 8 → (Exts.set acc d b).val < 2 ^ 8 := by
+      intro acc d b h
+      unfold Exts.set
+      exact Nat.or_lt_two_pow h (Nat.mod_lt _ (by decide))
+    have hside : ∀ (chk : Nat → Bool) (acc : Exts) (d : Dir) (b : Compress.Base), acc.val < 2 ^ 8 → (sideStep g nd chk acc d b).val < 2 ^ 8 := by
+      intro chk acc d b h
+      unfold sideStep
+      split
+      · split
+        · split
+          · exact hs _ _ _ h
+          · exact h
+        · exact h
+      · exact h
+    have : ∀ (bs : List Compress.Base) (acc : Exts), acc.val < 2 ^ 8 →
+        (bs.foldl (gveStep g nd (fun t => match valid with | some vs => vs.contains t | none => true)) acc).val < 2 ^ 8 := by
+      intro bs
+      induction bs with
+      | nil => intro acc h; exact h
+      | cons b t ih =>
+        intro acc h
+        rw [List.foldl_cons]
+        apply ih
+        rw [gveStep_eq]
+        exact hside _ _ _ _ (hside _ _ _ _ h)
+    exact this base4 ⟨0⟩ (by decide)
+
 /-- the state of the fold of `fix_exts` after the indices `< k` have been processed -/
 structure FixInv (g0 g : G D) (valid : Option (List Nat)) (k : Nat) : Prop where
   shape : sameShape g0 g
   done : ∀ (i : Nat) (n0 n : Node D), i < k → g0.nodes[i]? = some n0 → g.nodes[i]? = some n →
     ∀ d b, has n.exts d b ↔ has n0.exts d b ∧ extOk g0 n0 valid d b
   todo : ∀ (i : Nat), k ≤ i → g.nodes[i]? = g0.nodes[i]?
+  lt : ∀ (i : Nat) (n : Node D), i < k → g.nodes[i]? = some n → n.exts.val < 256
 
 theorem shape_get (g g' : G D) (h : sameShape g g') (i : Nat) (n' : Node D) (hn : g'.nodes[i]? = some n') :
     ∃ n, g.nodes[i]? = some n ∧ n.seq = n'.seq := by
@@ -682,7 +718,7 @@ theorem shape_get (g g' : G D) (h : sameShape g g') (i : Nat) (n' : Node D) (hn 
 
 theorem fixExts_exact (g0 : G D) (valid : Option (List Nat)) :
     ∀ (i : Nat) (n0 n : Node D), g0.nodes[i]? = some n0 → (fixExts g0 valid).nodes[i]? = some n →
-      n.seq = n0.seq ∧ n.data = n0.data ∧ ∀ d b, has n.exts d b ↔ has n0.exts d b ∧ extOk g0 n0 valid d b := by
+      n.seq = n0.seq ∧ n.data = n0.data ∧ n.exts.val < 256 ∧ ∀ d b, has n.exts d b ↔ has n0.exts d b ∧ extOk g0 n0 valid d b := by
   have key : ∀ (m k : Nat) (g : G D), k + m = g0.nodes.length → FixInv g0 g valid k →
       FixInv g0 ((List.range' k m).foldl (fun (g : G D) i =>
         match getValidExts g i valid, g.nodes[i]? with
@@ -706,7 +742,7 @@ theorem fixExts_exact (g0 : G D) (valid : Option (List Nat)) :
       rw [hstep, show k + (m + 1) = (k + 1) + m by omega]
       apply ih (k + 1) _ (by omega)
       have hglen : k < g.nodes.length := Graph.getElem?_lt hgk
-      refine ⟨sameShape_trans hinv.shape (sameShape_setExts g k _ hgk e), ?_, ?_⟩
+      refine ⟨sameShape_trans hinv.shape (sameShape_setExts g k _ hgk e), ?_, ?_, ?_⟩
       · intro i n0 n hi h0 hn d b
         by_cases hik : i = k
         · subst hik
@@ -726,8 +762,19 @@ theorem fixExts_exact (g0 : G D) (valid : Option (List Nat)) :
         show (g.nodes.set k _)[i]? = _
         rw [List.getElem?_set_ne (by omega)]
         exact hinv.todo i (by omega)
+      · intro i n hi hn
+        by_cases hik : i = k
+        · subst hik
+          have h1 : (g.nodes.set i { g0.nodes[i] with exts := e })[i]? = some n := hn
+          rw [List.getElem?_set_self hglen] at h1
+          have : n = { g0.nodes[i] with exts := e } := (Option.some.inj h1).symm
+          subst this
+          exact getValidExts_lt g i valid e he
+        · have h1 : (g.nodes.set k { g0.nodes[k] with exts := e })[i]? = some n := hn
+          rw [List.getElem?_set_ne (Ne.symm hik)] at h1
+          exact hinv.lt i n (by omega) h1
   intro i n0 n h0 hn
-  have hfin := key g0.nodes.length 0 g0 (by omega) ⟨sameShape_refl g0, fun i _ _ hi => by omega, fun _ _ => rfl⟩
+  have hfin := key g0.nodes.length 0 g0 (by omega) ⟨sameShape_refl g0, fun i _ _ hi => by omega, fun _ _ => rfl, fun i _ hi => by omega⟩
   have hfold : fixExts g0 valid = (List.range' 0 g0.nodes.length).foldl (fun (g : G D) i =>
         match getValidExts g i valid, g.nodes[i]? with
         | some e, some nd => { g with nodes := g.nodes.set i { nd with exts := e } }
@@ -742,7 +789,7 @@ theorem fixExts_exact (g0 : G D) (valid : Option (List Nat)) :
     have hs := congrArg (·[i]?) hfin.shape.2.2.2
     simp only [List.getElem?_map, hn, h0, Option.map_some, Option.some.injEq] at hs
     exact hs
-  exact ⟨hseq.symm, hdat, hfin.done i n0 n hlt h0 hn⟩
+  exact ⟨hseq.symm, hdat, hfin.lt i n hlt hn, hfin.done i n0 n hlt h0 hn⟩
 
 /-- **C09 (no dangling extension).** In the graph returned by `compress_graph`, every recorded extension of every node
     resolves through `find_link` to a node of that graph. -/
@@ -760,7 +807,7 @@ theorem C09_no_dangling (st : Bool) (g : G D) (join : D → D → Bool) (reduce 
     subst hg'
     have sh := fixExts_shape (⟨g.K, nodes.map (·.1), st⟩ : G D) none
     obtain ⟨n0, hn0, _⟩ := shape_get _ _ sh i n hn
-    obtain ⟨hseq, _, hex⟩ := fixExts_exact (⟨g.K, nodes.map (·.1), st⟩ : G D) none i n0 n hn0 hn
+    obtain ⟨hseq, _, _, hex⟩ := fixExts_exact (⟨g.K, nodes.map (·.1), st⟩ : G D) none i n0 n hn0 hn
     obtain ⟨_, t, s, f, hl, _⟩ := (hex d b).mp hb
     refine ⟨t, s, f, ?_⟩
     rw [findLink_shape _ _ sh, sh.1, hseq]
@@ -773,12 +820,6 @@ open Compress (Seq Exts Node windowsOf)
 open Walk (Dir rm mem_rm)
 open Graph
 variable {D : Type}
-
-/-- payload fold of `build_node`: the seed's payload, then the left path's, then the right path's -/
-def payloadFold (g : G D) (reduce : D → D → D) (acc : Option D) (p : Nat × Dir) : Option D :=
-  match acc, (g.nodes[p.1]?).map (·.data) with
-  | some d, some x => some (reduce d x)
-  | _, _ => none
 
 /-- **C09 (payload).** The payload of a merged node is the caller's reduction folded over the payloads of exactly the
     old nodes on its path: seed first, then the left path outwards, then the right path outwards. -/
@@ -808,5 +849,747 @@ theorem buildNode_payload (g : G D) (st : Bool) (join : D → D → Bool) (reduc
           obtain ⟨rfl, rfl, rfl⟩ := h
           exact ⟨sn, lpath, rpath, rfl, rfl, hdat.symm⟩
         · simp at h
+
+end CompressGraph
+
+namespace CompressGraph
+open Compress (Seq Exts Node windowsOf)
+open Walk (Dir rm mem_rm)
+open Graph
+open Filter (has)
+variable {D : Type}
+
+/-! ### the pruned graph `fix_exts(valid)`: what the walks rely on -/
+
+/-- invariant of the graph the walks run on: node sequences as in `GInv`; extension bytes are bytes; every recorded
+    extension resolves to a valid node; extensions recorded by valid nodes are reciprocated; a palindromic terminal k-mer
+    belongs to a single-k-mer node -/
+structure RInv (g : G D) (valid : List Nat) : Prop extends SeqInv g where
+  x8 : ∀ (i : Nat) (n : Node D), g.nodes[i]? = some n → n.exts.val < 256
+  closed : ∀ (x : Nat) (nd : Node D) (d : Dir) (b : Compress.Base), g.nodes[x]? = some nd → has nd.exts d b →
+    ∃ y s f, findLink g (Compress.extend (termKmer g.K nd.seq d) b d) d = some (y, s, f) ∧ y ∈ valid
+  recipr : ∀ (u v : Nat) (nu nv : Node D) (d s : Dir) (b : Compress.Base) (f : Bool), u ∈ valid → g.nodes[u]? = some nu →
+    g.nodes[v]? = some nv → has nu.exts d b →
+    findLink g (Compress.extend (termKmer g.K nu.seq d) b d) d = some (v, s, f) →
+    has nv.exts s (Compress.recip (termKmer g.K nu.seq d) d f) ∨
+      (PalNode g v ∧ has nv.exts s.flip (Compress.comp (Compress.recip (termKmer g.K nu.seq d) d f)))
+  palEnd : ∀ (i : Nat) (n : Node D) (s : Dir), g.stranded = false → g.nodes[i]? = some n →
+    Compress.rc (termKmer g.K n.seq s) = termKmer g.K n.seq s → n.seq.length = g.K
+
+end CompressGraph
+
+namespace CompressGraph
+open Compress (Seq Exts Node windowsOf)
+open Walk (Dir rm mem_rm)
+open Graph
+open Filter (has)
+variable {D : Type}
+
+/-- a palindromic terminal k-mer belongs to a single-k-mer node (true of every graph `compress_kmers` builds) -/
+def PalEnd (g : G D) : Prop :=
+  ∀ (i : Nat) (n : Node D) (s : Dir), g.stranded = false → g.nodes[i]? = some n →
+    Compress.rc (termKmer g.K n.seq s) = termKmer g.K n.seq s → n.seq.length = g.K
+
+theorem palNode_shape (g g' : G D) (h : sameShape g g') (v : Nat) (hp : PalNode g v) : PalNode g' v := by
+  obtain ⟨nv, hv, hst, hl, hr⟩ := hp
+  have hs := congrArg (·[v]?) h.2.2.1
+  simp only [List.getElem?_map, hv, Option.map_some] at hs
+  cases h2 : g'.nodes[v]? with
+  | none => rw [h2] at hs; cases hs
+  | some m =>
+    rw [h2] at hs
+    simp only [Option.map_some, Option.some.injEq] at hs
+    exact ⟨m, h2, by rw [h.2.1]; exact hst, by rw [hs, h.1]; exact hl, by rw [hs]; exact hr⟩
+
+/-- **`fix_exts(valid)` of a well-formed graph satisfies the walk invariant** -/
+theorem rinv_fixExts (g0 : G D) (hg : GInv g0) (hpe : PalEnd g0) (valid : List Nat) :
+    RInv (fixExts g0 (some valid)) valid := by
+  have sh := fixExts_shape g0 (some valid)
+  generalize hg1 : fixExts g0 (some valid) = g1 at sh
+  -- every node of g1 is a node of g0 with the same sequence, and its byte is the exact pruning of the old one
+  have hnode : ∀ (i : Nat) (n1 : Node D), g1.nodes[i]? = some n1 → ∃ n0, g0.nodes[i]? = some n0 ∧ n1.seq = n0.seq ∧
+      n1.exts.val < 256 ∧ ∀ d b, has n1.exts d b ↔ has n0.exts d b ∧ extOk g0 n0 (some valid) d b := by
+    intro i n1 h1
+    obtain ⟨n0, h0, _⟩ := shape_get g0 g1 sh i n1 h1
+    rw [← hg1] at h1
+    obtain ⟨a, _, c, e⟩ := fixExts_exact g0 (some valid) i n0 n1 h0 h1
+    exact ⟨n0, h0, a, c, e⟩
+  have hK : g1.K = g0.K := sh.1
+  have hfl : ∀ km d, findLink g1 km d = findLink g0 km d := findLink_shape g0 g1 sh
+  refine ⟨⟨by rw [hK]; exact hg.kpos, shape_len g0 g1 sh hg.len, ?_, ?_⟩, ?_, ?_, ?_, ?_⟩
+  · intro i j ni nj s hi hj ht
+    obtain ⟨mi, hmi, ei, _⟩ := hnode i ni hi
+    obtain ⟨mj, hmj, ej, _⟩ := hnode j nj hj
+    rw [hK, ei, ej] at ht
+    exact hg.sameSide i j mi mj s hmi hmj ht
+  · intro i j ni nj s hst hi hj ht
+    obtain ⟨mi, hmi, ei, _⟩ := hnode i ni hi
+    obtain ⟨mj, hmj, ej, _⟩ := hnode j nj hj
+    rw [hK, ei, ej] at ht
+    rw [sh.2.1] at hst
+    have := hg.rcSide i j mi mj s hst hmi hmj ht
+    exact ⟨this.1, by rw [ei, hK]; exact this.2⟩
+  · intro i n hi
+    obtain ⟨_, _, _, c, _⟩ := hnode i n hi
+    exact c
+  · intro x nd d b hx hb
+    obtain ⟨n0, _, e0, _, hex⟩ := hnode x nd hx
+    obtain ⟨_, t, s, f, hl, hv⟩ := (hex d b).mp hb
+    refine ⟨t, s, f, ?_, by simpa using hv⟩
+    rw [hfl, hK, e0]; exact hl
+  · intro u v nu nv d s b f huv hu hv hb hl
+    obtain ⟨mu, hmu, eu, _, hexu⟩ := hnode u nu hu
+    obtain ⟨mv, hmv, ev, _, hexv⟩ := hnode v nv hv
+    have hb0 := ((hexu d b).mp hb).1
+    rw [hfl, hK, eu] at hl
+    rw [hK, eu]
+    obtain ⟨hback1, hback2⟩ := back_link g0 hg.toSeqInv u v mu mv d s b f hmu hmv hl
+    rcases hg.recipr u v mu mv d s b f hmu hmv hb0 hl with h1 | ⟨hp, h1⟩
+    · left
+      rw [hexv]
+      refine ⟨h1, ?_⟩
+      obtain ⟨d', f', hbl, _⟩ := hback1
+      exact ⟨u, d', f', hbl, by simpa using huv⟩
+    · right
+      refine ⟨palNode_shape g0 g1 sh v hp, ?_⟩
+      rw [hexv]
+      refine ⟨h1, ?_⟩
+      obtain ⟨d', f', hbl⟩ := hback2 hp
+      exact ⟨u, d', f', hbl, by simpa using huv⟩
+  · intro i n s hst hi hr
+    obtain ⟨m, hm, e, _⟩ := hnode i n hi
+    rw [hK, e] at hr ⊢
+    rw [sh.2.1] at hst
+    exact hpe i m s hst hm hr
+
+end CompressGraph
+
+namespace CompressGraph
+open Compress (Seq Exts Node windowsOf)
+open Walk (Dir rm mem_rm)
+open Graph
+open Filter (has hasExt_iff)
+variable {D : Type}
+
+/-! ### on a graph satisfying the walk invariant the walks never panic -/
+
+/-- why the static part of `try_extend_node` can panic -/
+theorem staticNode_panic (g : G D) (st : Bool) (join : D → D → Bool) (x : Nat) (d : Dir) (h : staticNode g st join x d = .panic) :
+    g.nodes[x]? = none ∨
+    ∃ nd, g.nodes[x]? = some nd ∧ nd.exts.numExtDir d = 1 ∧
+      (nd.exts.uniqueExt d = none ∨
+       ∃ b, nd.exts.uniqueExt d = some b ∧
+        (findLink g (Compress.extend (termKmer g.K nd.seq d) b d) d = none ∨
+         ∃ y inc fl, findLink g (Compress.extend (termKmer g.K nd.seq d) b d) d = some (y, inc, fl) ∧
+          (g.nodes[y]? = none ∨ ∃ nn, g.nodes[y]? = some nn ∧
+            (nn.seq.length == g.K || consistentDir d inc fl) = false))) := by
+  unfold staticNode at h
+  cases hn : g.nodes[x]? with
+  | none => exact Or.inl rfl
+  | some nd =>
+    right
+    rw [hn] at h
+    simp only at h
+    split at h
+    · cases h
+    · rename_i hcond
+      simp only [Bool.or_eq_true, bne_iff_ne, ne_eq, not_or, Bool.not_eq_true, Decidable.not_not] at hcond
+      refine ⟨nd, rfl, hcond.1, ?_⟩
+      cases hu : nd.exts.uniqueExt d with
+      | none => exact Or.inl rfl
+      | some b =>
+        right
+        refine ⟨b, rfl, ?_⟩
+        rw [hu] at h
+        simp only at h
+        cases hl : findLink g (Compress.extend (termKmer g.K nd.seq d) b d) d with
+        | none => exact Or.inl rfl
+        | some r =>
+          obtain ⟨y, inc, fl⟩ := r
+          right
+          refine ⟨y, inc, fl, rfl, ?_⟩
+          rw [hl] at h
+          simp only at h
+          cases hnn : g.nodes[y]? with
+          | none => exact Or.inl rfl
+          | some nn =>
+            right
+            refine ⟨nn, rfl, ?_⟩
+            rw [hnn] at h
+            simp only at h
+            have key : ∀ (c : Bool) (y' : Nat) (i' : Dir) (b' : Bool) (c' : Nat) (e' : Exts),
+                (if c = true then StaticN.panic else StaticN.cand y' i' b' c' e') = StaticN.panic → c = true := by
+              intro c y' i' b' c' e' hh; cases c <;> simp at hh ⊢
+            have := key _ _ _ _ _ _ h
+            simpa using this
+
+theorem consistent_of_sound (d inc : Dir) (fl : Bool) (h0 : fl = false → inc = d.flip) (h1 : fl = true → inc = d) :
+    consistentDir d inc fl = true := by
+  cases fl with
+  | false => rw [h0 rfl]; cases d <;> rfl
+  | true => rw [h1 rfl]; cases d <;> rfl
+
+theorem nibCnt_pos_of_has (e : Exts) (he : e.val < 256) (d : Dir) (b : Compress.Base) (h : has e d b) : e.numExtDir d ≠ 0 := by
+  rw [Compress.numExtDir_eq]
+  exact (Compress.nib_table ⟨e.dirBits d, Compress.dirBits_lt e he d⟩ b).2.2.1 h
+
+theorem unique_of_cnt_has (e : Exts) (he : e.val < 256) (d : Dir) (b : Compress.Base) (hc : e.numExtDir d = 1) (h : has e d b) :
+    e.uniqueExt d = some b := by
+  rw [Compress.uniqueExt_eq]
+  rw [Compress.numExtDir_eq] at hc
+  simp only [hc, bne_self_eq_false, Bool.false_eq_true, if_false]
+  exact (Compress.nib_table ⟨e.dirBits d, Compress.dirBits_lt e he d⟩ b).1 hc h
+
+theorem has_of_unique (e : Exts) (d : Dir) (b : Compress.Base) (h : e.uniqueExt d = some b) : has e d b := by
+  rw [Compress.uniqueExt_eq] at h
+  split at h
+  · cases h
+  · exact nibUniq_has _ b h
+
+/-- a palindromic single-k-mer target makes the extended k-mer a palindrome -/
+theorem pal_next_of_palNode (g : G D) (v : Nat) (nv : Node D) (hv : g.nodes[v]? = some nv) (hp : PalNode g v)
+    (km : Seq) (s : Dir) (f : Bool) (hterm : termKmer g.K nv.seq s = if f then Compress.rc km else km) :
+    Compress.rc km = km := by
+  obtain ⟨nv', hv', _, hvl, hvp⟩ := hp
+  rw [hv] at hv'; cases hv'
+  have hx : termKmer g.K nv.seq s = nv.seq := by
+    cases s with
+    | L => show nv.seq.take g.K = nv.seq; rw [← hvl, List.take_length]
+    | R => show nv.seq.drop (nv.seq.length - g.K) = nv.seq; rw [hvl, Nat.sub_self, List.drop_zero]
+  rw [hx] at hterm
+  cases f with
+  | false => simp only [Bool.false_eq_true, if_false] at hterm; rw [← hterm]; exact hvp
+  | true =>
+    simp only [if_true] at hterm
+    have : km = Compress.rc nv.seq := by rw [hterm, Compress.rc_rc]
+    rw [this, hvp, hvp]
+
+/-- **no panic**: from a valid node the static part never panics, its target is valid, and an admissible target records at
+    least one extension on the entered side -/
+theorem static_ok (g : G D) (valid : List Nat) (hr : RInv g valid) (st : Bool) (hst : st = g.stranded) (join : D → D → Bool)
+    (x : Nat) (hxv : x ∈ valid) (nd : Node D) (hx : g.nodes[x]? = some nd) (d : Dir) :
+    staticNode g st join x d ≠ .panic ∧
+    ∀ y inc bad cnt e, staticNode g st join x d = .cand y inc bad cnt e → y ∈ valid ∧ (bad = false → 1 ≤ cnt) := by
+  constructor
+  · intro hp
+    rcases staticNode_panic g st join x d hp with h | ⟨nd', hx', hc, h⟩
+    · rw [hx] at h; cases h
+    · rw [hx] at hx'; cases hx'
+      have h8 := hr.x8 x nd hx
+      -- a count of one gives a unique extension
+      obtain ⟨c, hc'⟩ := (Compress.nib_table ⟨nd.exts.dirBits d, Compress.dirBits_lt nd.exts h8 d⟩ 0).2.2.2 (by rw [← Compress.numExtDir_eq]; exact hc)
+      have hu : nd.exts.uniqueExt d = some c := by
+        rw [Compress.uniqueExt_eq, ← Compress.numExtDir_eq, hc]; simpa using hc'
+      rcases h with h | ⟨b, hb, h⟩
+      · rw [hu] at h; cases h
+      · rw [hu] at hb; cases hb
+        obtain ⟨y, s, f, hl, _⟩ := hr.closed x nd d c hx (has_of_unique _ _ _ hu)
+        rcases h with h | ⟨y', inc, fl, hl', h⟩
+        · rw [hl] at h; cases h
+        · rw [hl] at hl'; cases hl'
+          obtain ⟨nn, hnn, _, hf0, hf1⟩ := findLink_sound g _ _ _ _ _ hl
+          rcases h with h | ⟨nn', hnn', h⟩
+          · rw [hnn] at h; cases h
+          · have := consistent_of_sound d s f hf0 (fun hh => (hf1 hh).1)
+            rw [this] at h; simp at h
+  · intro y inc bad cnt e hs
+    obtain ⟨nd', nn, b, fl, hx', hy, hc, _, hu, hl, hbad, hcnt, _⟩ := staticNode_cand g st join x d y inc bad cnt e hs
+    rw [hx] at hx'; cases hx'
+    have hb := has_of_unique _ _ _ hu
+    obtain ⟨y', s', f', hl', hyv⟩ := hr.closed x nd d b hx hb
+    rw [hl] at hl'; cases hl'
+    refine ⟨hyv, fun hbf => ?_⟩
+    rw [hcnt]
+    have hne : nn.exts.numExtDir inc ≠ 0 := by
+      rcases hr.recipr x y nd nn d inc b fl hxv hx hy hb hl with h1 | ⟨hp, _⟩
+      · exact nibCnt_pos_of_has nn.exts (hr.x8 y nn hy) inc _ h1
+      · -- a palindromic target would have been refused
+        exfalso
+        obtain ⟨nn', hnn', hterm, _, _⟩ := findLink_sound g _ _ _ _ _ hl
+        rw [hy] at hnn'; cases hnn'
+        have hrc := pal_next_of_palNode g y nn hy hp _ inc fl hterm
+        have hstf : st = false := by rw [hst]; exact hp.choose_spec.2.1
+        rw [hbad, hstf, Compress.isPal_of_rc _ hrc] at hbf
+        simp at hbf
+    omega
+
+end CompressGraph
+
+namespace CompressGraph
+open Compress (Seq Exts Node windowsOf)
+open Walk (Dir rm mem_rm)
+open Graph
+open Filter (has hasExt_iff)
+variable {D : Type}
+
+/-! ### the good-link relation of the pruned graph, its symmetry, and the walks as its abstract walks -/
+
+theorem staticNode_intro (g : G D) (st : Bool) (join : D → D → Bool) (x : Nat) (d : Dir) (nd nn : Node D) (b : Compress.Base)
+    (y : Nat) (inc : Dir) (fl : Bool) (hx : g.nodes[x]? = some nd) (hc : nd.exts.numExtDir d = 1)
+    (hsp : (!st && nd.seq.length == g.K && Compress.isPalindrome (nd.seq.take g.K)) = false)
+    (hu : nd.exts.uniqueExt d = some b)
+    (hl : findLink g (Compress.extend (termKmer g.K nd.seq d) b d) d = some (y, inc, fl)) (hy : g.nodes[y]? = some nn)
+    (hcons : consistentDir d inc fl = true) :
+    staticNode g st join x d = .cand y inc ((!st && Compress.isPalindrome (Compress.extend (termKmer g.K nd.seq d) b d)) || !(join nd.data nn.data))
+      (nn.exts.numExtDir inc) (nd.exts.singleDir d) := by
+  unfold staticNode
+  rw [hx]
+  simp only
+  rw [if_neg (by simp [hc, hsp])]
+  rw [hu]
+  simp only
+  rw [hl]
+  simp only
+  rw [hy]
+  simp only [hcons, Bool.or_true, Bool.not_true, Bool.false_eq_true, if_false]
+
+/-- the availability-independent good-link relation between valid nodes -/
+def glinkV (g : G D) (st : Bool) (join : D → D → Bool) (valid : List Nat) : Walk.Link := fun x d =>
+  if x ∈ valid then
+    match staticNode g st join x d with
+    | .cand y inc false 1 _ => if y ∈ valid then some (y, inc.flip) else none
+    | _ => none
+  else none
+
+theorem glinkV_some (g : G D) (st : Bool) (join : D → D → Bool) (valid : List Nat) (x : Nat) (d : Dir) (y : Nat) (o : Dir)
+    (h : glinkV g st join valid x d = some (y, o)) :
+    x ∈ valid ∧ y ∈ valid ∧ ∃ e, staticNode g st join x d = .cand y o.flip false 1 e := by
+  unfold glinkV at h
+  by_cases hx : x ∈ valid
+  · rw [if_pos hx] at h
+    split at h
+    · rename_i y' inc e hs
+      by_cases hy : y' ∈ valid
+      · rw [if_pos hy] at h
+        simp only [Option.some.injEq, Prod.mk.injEq] at h
+        obtain ⟨rfl, rfl⟩ := h
+        exact ⟨hx, hy, e, by rw [Dir.flip_flip]; exact hs⟩
+      · rw [if_neg hy] at h; cases h
+    · cases h
+  · rw [if_neg hx] at h; cases h
+
+theorem glinkV_intro (g : G D) (st : Bool) (join : D → D → Bool) (valid : List Nat) (x : Nat) (d : Dir) (y : Nat) (inc : Dir) (e : Exts)
+    (hx : x ∈ valid) (hy : y ∈ valid) (hs : staticNode g st join x d = .cand y inc false 1 e) :
+    glinkV g st join valid x d = some (y, inc.flip) := by
+  unfold glinkV
+  rw [if_pos hx, hs]
+  simp only
+  rw [if_pos hy]
+
+/-- **the good-link relation is symmetric** (join symmetric; the flag passed to the walk is the graph's own) -/
+theorem glinkV_sym (g : G D) (valid : List Nat) (hr : RInv g valid) (st : Bool) (hst : st = g.stranded) (join : D → D → Bool)
+    (hj : ∀ a b, join a b = join b a) : Walk.Sym (glinkV g st join valid) := by
+  intro x d y o h
+  obtain ⟨hxv, hyv, e, hs⟩ := glinkV_some g st join valid x d y o h
+  obtain ⟨nd, nn, b, fl, hx, hy, hc, hsp, hu, hl, hbad, hcnt, _⟩ := staticNode_cand g st join x d y o.flip false 1 e hs
+  have hb := has_of_unique _ _ _ hu
+  have hbad' : (!st && Compress.isPalindrome (Compress.extend (termKmer g.K nd.seq d) b d)) = false ∧ join nd.data nn.data = true := by
+    have := hbad.symm
+    simp only [Bool.or_eq_false_iff, Bool.not_eq_false'] at this
+    exact this
+  obtain ⟨nn', hnn', hterm, hf0, hf1⟩ := findLink_sound g _ _ _ _ _ hl
+  rw [hy] at hnn'; cases hnn'
+  -- `y` is not a palindromic single-k-mer node, so it records the reciprocal base on the entered side
+  have hnotpal : ¬ PalNode g y := by
+    intro hp
+    have hrc := pal_next_of_palNode g y nn hy hp _ o.flip fl hterm
+    have hstf : st = false := by rw [hst]; exact hp.choose_spec.2.1
+    have := hbad'.1
+    rw [hstf, Compress.isPal_of_rc _ hrc] at this
+    simp at this
+  have hrec : has nn.exts o.flip (Compress.recip (termKmer g.K nd.seq d) d fl) := by
+    rcases hr.recipr x y nd nn d o.flip b fl hxv hx hy hb hl with h1 | ⟨hp, _⟩
+    · exact h1
+    · exact absurd hp hnotpal
+  have hur : nn.exts.uniqueExt o.flip = some (Compress.recip (termKmer g.K nd.seq d) d fl) :=
+    unique_of_cnt_has nn.exts (hr.x8 y nn hy) o.flip _ hcnt.symm hrec
+  -- the way back
+  obtain ⟨⟨d', f', hbl, hd'⟩, _⟩ := back_link g hr.toSeqInv x y nd nn d o.flip b fl hx hy hl
+  have hxnotsingle : ¬ (g.stranded = false ∧ nd.seq.length = g.K ∧ Compress.rc nd.seq = nd.seq) := by
+    rintro ⟨h1, h2, h3⟩
+    have : (!st && nd.seq.length == g.K && Compress.isPalindrome (nd.seq.take g.K)) = true := by
+      rw [hst, h1, ← h2, List.take_length, Compress.isPal_of_rc _ h3]; simp
+    rw [this] at hsp; cases hsp
+  have hdd : d' = d := by rcases hd' with h1 | h1; exact h1; exact absurd h1 hxnotsingle
+  subst hdd
+  -- `y` is not refused as a single palindromic node either
+  have hysp : (!st && nn.seq.length == g.K && Compress.isPalindrome (nn.seq.take g.K)) = false := by
+    cases hh : (!st && nn.seq.length == g.K && Compress.isPalindrome (nn.seq.take g.K)) with
+    | false => rfl
+    | true =>
+      exfalso
+      simp only [Bool.and_eq_true, Bool.not_eq_true', beq_iff_eq] at hh
+      obtain ⟨⟨h1, h2⟩, h3⟩ := hh
+      rw [← h2, List.take_length] at h3
+      unfold Compress.isPalindrome at h3
+      simp only [Bool.and_eq_true, beq_iff_eq] at h3
+      exact hnotpal ⟨nn, hy, by rw [← hst]; exact h1, h2, h3.2.symm⟩
+  obtain ⟨nx', hnx', hterm', hf0', hf1'⟩ := findLink_sound g _ _ _ _ _ hbl
+  rw [hx] at hnx'; cases hnx'
+  have hcons := consistent_of_sound o.flip d' f' hf0' (fun hh => (hf1' hh).1)
+  have hst2 := staticNode_intro g st join y o.flip nn nd _ x d' f' hy hcnt.symm hysp hur hbl hx hcons
+  -- the step back is admissible: its k-mer is not a palindrome, `join` is symmetric, `x` has one extension on `d`
+  have hbad2 : ((!st && Compress.isPalindrome (Compress.extend (termKmer g.K nn.seq o.flip)
+      (Compress.recip (termKmer g.K nd.seq d') d' fl) o.flip)) || !(join nn.data nd.data)) = false := by
+    have hjn : join nn.data nd.data = true := by rw [hj]; exact hbad'.2
+    rw [hjn]
+    simp only [Bool.not_true, Bool.or_false]
+    cases hh : (!st && Compress.isPalindrome (Compress.extend (termKmer g.K nn.seq o.flip)
+        (Compress.recip (termKmer g.K nd.seq d') d' fl) o.flip)) with
+    | false => rfl
+    | true =>
+      exfalso
+      simp only [Bool.and_eq_true, Bool.not_eq_true'] at hh
+      obtain ⟨h1, h2⟩ := hh
+      unfold Compress.isPalindrome at h2
+      simp only [Bool.and_eq_true, beq_iff_eq] at h2
+      have hkrc : Compress.rc (Compress.extend (termKmer g.K nn.seq o.flip) (Compress.recip (termKmer g.K nd.seq d') d' fl) o.flip) =
+          Compress.extend (termKmer g.K nn.seq o.flip) (Compress.recip (termKmer g.K nd.seq d') d' fl) o.flip := h2.2.symm
+      -- then the end k-mer of `x` is a palindrome, so `x` is a single-k-mer node
+      have hendpal : Compress.rc (termKmer g.K nd.seq d') = termKmer g.K nd.seq d' := by
+        cases f' with
+        | false =>
+          simp only [Bool.false_eq_true, if_false] at hterm'
+          rw [hterm']; exact hkrc
+        | true =>
+          simp only [if_true] at hterm'
+          rw [hterm', Compress.rc_rc]; exact hkrc.symm
+      have hsingle := hr.palEnd x nd d' (by rw [← hst]; exact h1) hx hendpal
+      apply hxnotsingle
+      refine ⟨by rw [← hst]; exact h1, hsingle, ?_⟩
+      have : termKmer g.K nd.seq d' = nd.seq := by
+        cases d' with
+        | L => show nd.seq.take g.K = nd.seq; rw [← hsingle, List.take_length]
+        | R => show nd.seq.drop (nd.seq.length - g.K) = nd.seq; rw [hsingle, Nat.sub_self, List.drop_zero]
+      rw [this] at hendpal; exact hendpal
+  rw [hbad2, hc] at hst2
+  have := glinkV_intro g st join valid y o.flip x d' _ hyv hxv hst2
+  exact this
+
+end CompressGraph
+
+namespace CompressGraph
+open Compress (Seq Exts Node windowsOf)
+open Walk (Dir rm mem_rm)
+open Graph
+open Filter (has hasExt_iff)
+variable {D : Type}
+
+theorem tryExtendNode_of_static (g : G D) (st : Bool) (join : D → D → Bool) (avail : List Nat) (x : Nat) (d : Dir)
+    (y : Nat) (inc : Dir) (bad : Bool) (cnt : Nat) (e : Exts) (hs : staticNode g st join x d = .cand y inc bad cnt e) :
+    tryExtendNode g st join avail x d =
+      (if !(avail.contains y) || bad then .terminal e else if cnt == 0 then .panic
+       else if cnt == 1 then .unique y inc.flip else .terminal e) := by
+  unfold tryExtendNode; rw [hs]
+
+/-- **the walks of `compress_graph` are the abstract walks over the good-link relation** -/
+theorem extendNode_refines (g : G D) (valid : List Nat) (hr : RInv g valid) (st : Bool) (hst : st = g.stranded) (join : D → D → Bool)
+    (avail : List Nat) (x : Nat) (d : Dir) :
+    (∀ z ∈ avail, z ∈ valid) → x ∈ valid → (g.nodes[x]?).isSome →
+    ∃ e, extendNode g st join avail x d =
+      some ((Walk.walk (glinkV g st join valid) avail x d).1.map flip2, e, (Walk.walk (glinkV g st join valid) avail x d).2) := by
+  fun_induction Walk.walk (glinkV g st join valid) avail x d with
+  | case1 avail x d y d' hl hy r ih =>
+    intro hav hxv hxn
+    obtain ⟨_, hyv, e0, hs⟩ := glinkV_some g st join valid x d y d' hl
+    obtain ⟨_, nn, _, _, _, hyn, _⟩ := staticNode_cand g st join x d y d'.flip false 1 e0 hs
+    have ht : tryExtendNode g st join avail x d = .unique y d' := by
+      rw [tryExtendNode_of_static g st join avail x d y d'.flip false 1 e0 hs]
+      simp [hy, Dir.flip_flip]
+    obtain ⟨e, ih⟩ := ih (fun z hz => hav z (mem_rm.mp hz).1) hyv (by rw [hyn]; rfl)
+    unfold extendNode
+    split
+    · rename_i nx out heq
+      rw [ht] at heq
+      simp only [ExtModeNode.unique.injEq] at heq
+      obtain ⟨rfl, rfl⟩ := heq
+      simp only [hy, dite_true]
+      rw [ih]
+      exact ⟨e, by simp only [List.map_cons, flip2, Dir.flip_flip]; rfl⟩
+    · rename_i e1 heq; rw [ht] at heq; cases heq
+    · rename_i heq; rw [ht] at heq; cases heq
+  | case2 avail x d y d' hl hy =>
+    intro hav hxv hxn
+    obtain ⟨_, hyv, e0, hs⟩ := glinkV_some g st join valid x d y d' hl
+    have ht : tryExtendNode g st join avail x d = .terminal e0 := by
+      rw [tryExtendNode_of_static g st join avail x d y d'.flip false 1 e0 hs]
+      simp [hy]
+    unfold extendNode
+    split
+    · rename_i nx out heq; rw [ht] at heq; cases heq
+    · rename_i e1 heq; rw [ht] at heq; cases heq; exact ⟨e0, rfl⟩
+    · rename_i heq; rw [ht] at heq; cases heq
+  | case3 avail x d hl =>
+    intro hav hxv hxn
+    obtain ⟨nd, hx⟩ := Option.isSome_iff_exists.mp hxn
+    obtain ⟨hnp, hcand⟩ := static_ok g valid hr st hst join x hxv nd hx d
+    have ht : ∃ e0, tryExtendNode g st join avail x d = .terminal e0 := by
+      cases hs : staticNode g st join x d with
+      | panic => exact absurd hs hnp
+      | terminal e0 => exact ⟨e0, by unfold tryExtendNode; rw [hs]⟩
+      | cand y inc bad cnt e0 =>
+        obtain ⟨hyv, hcnt⟩ := hcand y inc bad cnt e0 hs
+        rw [tryExtendNode_of_static g st join avail x d y inc bad cnt e0 hs]
+        by_cases hc1 : (!(avail.contains y) || bad) = true
+        · exact ⟨e0, by rw [if_pos hc1]⟩
+        · rw [if_neg hc1]
+          simp only [Bool.or_eq_true, Bool.not_eq_true', not_or, Bool.not_eq_false, Bool.not_eq_true] at hc1
+          have hb : bad = false := hc1.2
+          have h1 := hcnt hb
+          rw [if_neg (by simp; omega)]
+          by_cases hc2 : cnt = 1
+          · -- then it would be a good link
+            exfalso
+            subst hc2; subst hb
+            have := glinkV_intro g st join valid x d y inc e0 hxv hyv hs
+            rw [hl] at this; cases this
+          · exact ⟨e0, by rw [if_neg (by simpa using hc2)]⟩
+    obtain ⟨e0, ht⟩ := ht
+    unfold extendNode
+    split
+    · rename_i nx out heq; rw [ht] at heq; cases heq
+    · rename_i e1 heq; rw [ht] at heq; cases heq; exact ⟨e0, rfl⟩
+    · rename_i heq; rw [ht] at heq; cases heq
+
+end CompressGraph
+
+namespace CompressGraph
+open Compress (Seq Exts Node windowsOf)
+open Walk (Dir rm mem_rm)
+open Graph
+open Filter (has hasExt_iff)
+variable {D : Type}
+
+theorem payload_fold_some (g : G D) (reduce : D → D → D) (p : List (Nat × Dir)) (hn : ∀ q ∈ p, (g.nodes[q.1]?).isSome) (d0 : D) :
+    ∃ d, p.foldl (payloadFold g reduce) (some d0) = some d := by
+  induction p generalizing d0 with
+  | nil => exact ⟨d0, rfl⟩
+  | cons q t ih =>
+    obtain ⟨n, hq⟩ := Option.isSome_iff_exists.mp (hn q (by simp))
+    rw [List.foldl_cons]
+    have : payloadFold g reduce (some d0) q = some (reduce d0 n.data) := by unfold payloadFold; rw [hq]; rfl
+    rw [this]
+    exact ih (fun x hx => hn x (by simp [hx])) _
+
+theorem walk_rest_sub (link : Walk.Link) : ∀ (a : List Nat) (x : Nat) (d : Dir) (z : Nat), z ∈ (Walk.walk link a x d).2 → z ∈ a := by
+  intro a x d
+  fun_induction Walk.walk link a x d with
+  | case1 a x d y d' hl hy r ih => intro z hz; exact (mem_rm.mp (ih z hz)).1
+  | case2 a x d y d' hl hy => intro z hz; exact hz
+  | case3 a x d hl => intro z hz; exact hz
+
+/-- **`build_node` never panics** on the pruned graph and consumes exactly the nodes of the abstract `build` -/
+theorem buildNode_refines (g : G D) (valid : List Nat) (hr : RInv g valid) (st : Bool) (hst : st = g.stranded) (join : D → D → Bool)
+    (reduce : D → D → D) (avail : List Nat) (hav : ∀ z ∈ avail, z ∈ valid) (seed : Nat) (hs : seed ∈ avail)
+    (hsn : (g.nodes[seed]?).isSome) :
+    ∃ nd path, buildNode g st join reduce avail seed = some (nd, path, (Walk.build (glinkV g st join valid) avail seed).2) ∧
+      ids path = (Walk.build (glinkV g st join valid) avail seed).1 := by
+  obtain ⟨sn, hsn'⟩ := Option.isSome_iff_exists.mp hsn
+  generalize hlink : glinkV g st join valid = link
+  have hsv : seed ∈ valid := hav seed hs
+  obtain ⟨el, hL⟩ := extendNode_refines g valid hr st hst join (rm avail seed) seed .L
+    (fun z hz => hav z (mem_rm.mp hz).1) hsv hsn
+  rw [hlink] at hL
+  generalize hlw : Walk.walk link (rm avail seed) seed .L = lw at hL
+  have hnot : seed ∉ lw.2 := by
+    intro h
+    rw [← hlw] at h
+    exact (mem_rm.mp (walk_rest_sub link _ _ _ seed h)).2 rfl
+  have hrm : rm lw.2 seed = lw.2 := Compress.rm_of_not_mem _ _ hnot
+  have hsub2 : ∀ z ∈ lw.2, z ∈ valid := by
+    intro z hz
+    rw [← hlw] at hz
+    exact hav z (mem_rm.mp (walk_rest_sub link _ _ _ z hz)).1
+  obtain ⟨er, hR⟩ := extendNode_refines g valid hr st hst join lw.2 seed .R hsub2 hsv hsn
+  rw [hlink] at hR
+  generalize hrw : Walk.walk link lw.2 seed .R = rw at hR
+  have hbuild : Walk.build link avail seed = ((lw.1.map Prod.fst).reverse ++ [seed] ++ rw.1.map Prod.fst, rw.2) := by
+    unfold Walk.build; simp only [hlw, hrw]
+  rw [hbuild]
+  -- payload and sequence never fail
+  have nl := extendNode_nodes g st join _ _ _ _ _ _ hL
+  have nr := extendNode_nodes g st join _ _ _ _ _ _ hR
+  obtain ⟨dl, hdl⟩ := payload_fold_some g reduce (lw.1.map flip2) nl sn.data
+  obtain ⟨dr, hdr⟩ := payload_fold_some g reduce (rw.1.map flip2) nr dl
+  have cl := extendNode_chain g st join _ _ _ _ _ _ hL
+  have cr := extendNode_chain g st join _ _ _ _ _ _ hR
+  have hrev := isChain_reverse g (seed, Dir.L.flip) (lw.1.map flip2) cl
+  have hchain : IsChain g (((lw.1.map flip2).map flip2).reverse ++ [(seed, Dir.L)] ++ rw.1.map flip2) :=
+    isChain_append g _ _ (seed, Dir.L) (by simpa [flip2, Dir.flip] using hrev) (by simpa [Dir.flip] using cr)
+  have hnodes : ∀ q ∈ ((lw.1.map flip2).map flip2).reverse ++ [(seed, Dir.L)] ++ rw.1.map flip2, (g.nodes[q.1]?).isSome := by
+    intro q hq
+    simp only [List.mem_append, List.mem_reverse, List.mem_singleton] at hq
+    rcases hq with (hq | rfl) | hq
+    · obtain ⟨p, hp, rfl⟩ := List.mem_map.mp hq
+      exact nl p hp
+    · exact hsn
+    · exact nr q hq
+  have hseq : ∃ S, sequenceOfPath g (((lw.1.map flip2).map flip2).reverse ++ [(seed, Dir.L)] ++ rw.1.map flip2) = some S := by
+    cases hpath : ((lw.1.map flip2).map flip2).reverse ++ [(seed, Dir.L)] ++ rw.1.map flip2 with
+    | nil => simp at hpath
+    | cons p0 rest =>
+      rw [hpath] at hchain hnodes
+      obtain ⟨S, e, _⟩ := walk_sequence g hr.kpos hr.len p0 rest (hnodes p0 (by simp)) (fun q hq => hnodes q (by simp [hq])) hchain
+      exact ⟨S, e⟩
+  obtain ⟨S, hS⟩ := hseq
+  refine ⟨?nd, ((lw.1.map flip2).map flip2).reverse ++ [(seed, Dir.L)] ++ rw.1.map flip2, ?h1, ?h2⟩
+  case h1 =>
+    unfold buildNode
+    rw [hsn']
+    simp only
+    rw [hL]
+    simp only
+    rw [hrm, hR]
+    simp only
+    have hmapeq : (List.map (fun p => (p.1, p.2.flip)) (List.map flip2 lw.1)) = (lw.1.map flip2).map flip2 := rfl
+    rw [hmapeq, hS]
+    rw [hdl, hdr]
+  case h2 =>
+    simp [ids, List.map_reverse, List.map_map, Function.comp_def, flip2]
+
+end CompressGraph
+
+namespace CompressGraph
+open Compress (Seq Exts Node windowsOf)
+open Walk (Dir rm mem_rm)
+open Graph
+open Filter (has hasExt_iff)
+variable {D : Type}
+
+theorem compressLoop_refines (g : G D) (valid : List Nat) (hr : RInv g valid) (st : Bool) (hst : st = g.stranded)
+    (join : D → D → Bool) (reduce : D → D → D) :
+    ∀ (is avail : List Nat), (∀ z ∈ avail, z ∈ valid) → (∀ i ∈ is, (g.nodes[i]?).isSome) →
+      ∃ out, compressLoop g st join reduce is avail = some out ∧
+        out.map (fun np => ids np.2) = Walk.compress (glinkV g st join valid) is avail := by
+  intro is
+  induction is with
+  | nil => intro avail _ _; exact ⟨[], rfl, rfl⟩
+  | cons i is ih =>
+    intro avail hav hnodes
+    by_cases hi : i ∈ avail
+    · obtain ⟨nd, path, hb, hids⟩ := buildNode_refines g valid hr st hst join reduce avail hav i hi (hnodes i (by simp))
+      have hok := buildNode_ok g st join reduce avail i hi nd path _ hb
+      obtain ⟨out, ho, hm⟩ := ih (Walk.build (glinkV g st join valid) avail i).2
+        (fun z hz => hav z ((hok.2.1 z).mp hz).1) (fun j hj => hnodes j (by simp [hj]))
+      refine ⟨(nd, path) :: out, ?_, ?_⟩
+      · simp only [compressLoop, hi, if_true, hb, ho]
+      · simp only [Walk.compress, hi, if_true, List.map_cons, hm, hids]
+    · obtain ⟨out, ho, hm⟩ := ih avail hav (fun j hj => hnodes j (by simp [hj]))
+      exact ⟨out, by simp only [compressLoop, hi, if_false, ho], by simp only [Walk.compress, hi, if_false, hm]⟩
+
+/-- the statement of C09 for one graph: `compress_graph` returns; its paths are the abstract compression over the good-link
+    relation of the pruned graph; two non-censored nodes share a path iff good links connect them -/
+def Recompressed (g0 : G D) (join : D → D → Bool) (reduce : D → D → D) (censor : List Nat) : Prop :=
+  let valid := (List.range g0.nodes.length).filter fun i => !censor.contains i
+  let link := glinkV (fixExts g0 (some valid)) g0.stranded join valid
+  ∃ g' paths, compressGraph g0.stranded g0 join reduce censor = some (g', paths) ∧
+    paths.map ids = Walk.compress link (List.range g0.nodes.length) valid ∧
+    ∀ x y, x ∈ valid → y ∈ valid → (Walk.Conn link x y ↔ ∃ p ∈ paths, x ∈ ids p ∧ y ∈ ids p)
+
+/-- **C09 (characterisation).** For every graph satisfying the node-level invariant (`GInv`; palindromic terminal k-mers
+    only in single-k-mer nodes) and every censor set, with a symmetric `join` and the graph's own strandedness:
+    `compress_graph` **returns** (no panic), its paths are those of the abstract compression over the good-link relation
+    of the pruned graph, and two non-censored nodes lie on the same path **iff** they are connected by good links — the new
+    nodes are exactly the maximal unbranched paths of the surviving adjacencies. -/
+theorem C09_char (g0 : G D) (hg : GInv g0) (hpe : PalEnd g0) (join : D → D → Bool) (hj : ∀ a b, join a b = join b a)
+    (reduce : D → D → D) (censor : List Nat) : Recompressed g0 join reduce censor := by
+  unfold Recompressed
+  intro valid link
+  have hr := rinv_fixExts g0 hg hpe valid
+  have sh := fixExts_shape g0 (some valid)
+  have hstr : g0.stranded = (fixExts g0 (some valid)).stranded := sh.2.1.symm
+  have hlen : (fixExts g0 (some valid)).nodes.length = g0.nodes.length := by
+    have := congrArg List.length sh.2.2.1
+    simpa using this
+  obtain ⟨out, ho, hm⟩ := compressLoop_refines (fixExts g0 (some valid)) valid hr g0.stranded hstr join reduce
+    (List.range g0.nodes.length) valid (fun z hz => hz)
+    (fun i hi => by
+      rw [List.mem_range] at hi
+      rw [List.getElem?_eq_getElem (by rw [hlen]; exact hi)]; rfl)
+  have hsym := glinkV_sym (fixExts g0 (some valid)) valid hr g0.stranded hstr join hj
+  have ok := Walk.compress_ok link hsym (List.range g0.nodes.length) valid
+  refine ⟨fixExts ⟨g0.K, out.map (·.1), g0.stranded⟩ none, out.map (·.2), ?_, ?_, ?_⟩
+  · unfold compressGraph
+    dsimp only
+    rw [ho]
+  · rw [List.map_map]; exact hm
+  · intro x y hx hy
+    have hpaths : ∀ (N : List Nat), N ∈ Walk.compress link (List.range g0.nodes.length) valid ↔ ∃ p ∈ out.map (·.2), ids p = N := by
+      intro N
+      rw [← hm]
+      simp only [List.mem_map]
+      constructor
+      · rintro ⟨np, hnp, rfl⟩; exact ⟨np.2, ⟨np, hnp, rfl⟩, rfl⟩
+      · rintro ⟨p, ⟨np, hnp, rfl⟩, rfl⟩; exact ⟨np, hnp, rfl⟩
+    have hxr : x ∈ List.range g0.nodes.length := (List.mem_filter.mp hx).1
+    constructor
+    · intro hc
+      have : ∃ N ∈ Walk.compress link (List.range g0.nodes.length) valid, x ∈ N ∧ y ∈ N := by
+        clear hy
+        induction hc with
+        | refl =>
+          obtain ⟨N, hN, hxN⟩ := ok.cover x hxr hx
+          exact ⟨N, hN, hxN, hxN⟩
+        | step _ r ih =>
+          obtain ⟨N, hN, hxN, hyN⟩ := ih
+          obtain ⟨d, d', hl⟩ := r
+          rcases ok.sealed N hN _ hyN d _ d' hl with h | h
+          · exact ⟨N, hN, hxN, h⟩
+          · exact absurd (glinkV_some _ _ _ _ _ _ _ _ hl).2.1 h
+      obtain ⟨N, hN, hxN, hyN⟩ := this
+      obtain ⟨p, hp, rfl⟩ := (hpaths N).mp hN
+      exact ⟨p, hp, hxN, hyN⟩
+    · rintro ⟨p, hp, hxp, hyp⟩
+      exact ok.conn (ids p) ((hpaths _).mpr ⟨p, hp, rfl⟩) x hxp y hyp
+
+end CompressGraph
+
+namespace CompressGraph
+open Compress (Seq Exts Node windowsOf)
+open Walk (Dir rm mem_rm)
+open Graph
+variable {D : Type}
+
+/-- graphs built by `compress_kmers` have palindromic terminal k-mers only in single-k-mer nodes -/
+theorem palEnd_of_compress {T : Compress.Table D} {K : Nat} {st : Bool} {join : D → D → Bool} (reduce : D → D → D)
+    (wf : Compress.WF T K st) (hes : Compress.ExtSym T st)
+    (out : List (Node D × List Nat)) (ho : Compress.compressKmersC T st join reduce = some out) :
+    PalEnd (⟨K, out.map (·.1), st⟩ : G D) := by
+  intro i n s hst hn hrc
+  have hst' : st = false := hst
+  subst hst'
+  have hprov := Compress.compressLoopC_prov T false join reduce (List.range T.length) (List.range T.length) out
+    (fun i hi => List.mem_range.mp hi) ho
+  rw [List.getElem?_map] at hn
+  cases hx : out[i]? with
+  | none => rw [hx] at hn; cases hn
+  | some x =>
+    rw [hx] at hn
+    simp only [Option.map_some, Option.some.injEq] at hn
+    subst hn
+    obtain ⟨av, seed, a', hseed, hb⟩ := hprov x (List.mem_of_getElem? hx)
+    obtain ⟨_, hp⟩ := Compress.built_node_ports (join := join) reduce wf hes av seed hseed x.1 x.2 a' hb
+    obtain ⟨e, hpe⟩ := hp s
+    have hrce : Compress.rc e.key = e.key := by
+      have ht := hpe.term
+      have hrc' : Compress.rc (termKmer K x.1.seq s) = termKmer K x.1.seq s := hrc
+      rw [ht] at hrc'
+      by_cases hsame : (Compress.nodePort T false join av seed s).2 = s
+      · simpa [hsame] using hrc'
+      · simp only [hsame, if_false, Compress.rc_rc] at hrc'
+        exact hrc'.symm
+    exact (Compress.pal_port_single (join := join) reduce wf hes av seed hseed x.1 x.2 a' hb s e hpe hrce).1
+
+attribute [irreducible] Recompressed
+
+/-- **C09 for graphs built from k-mer tables.** Re-compressing (with any censor set) the graph `compress_kmers` built from
+    a well-formed reciprocal table never panics and yields exactly the maximal unbranched paths of the surviving good links. -/
+theorem C09_char_of_built {T : Compress.Table D} {K : Nat} {st : Bool} {join : D → D → Bool} (reduce : D → D → D)
+    (wf : Compress.WF T K st) (hes2 : Filter.ExtSym2 T st) (hj : ∀ a b, join a b = join b a)
+    (out : List (Node D × List Nat)) (ho : Compress.compressKmersC T st join reduce = some out) (censor : List Nat) :
+    Recompressed (⟨K, out.map (·.1), st⟩ : G D) join reduce censor := by
+  have h1 := Compress.compress_ginv reduce wf hes2 hj out ho
+  have h2 := palEnd_of_compress reduce wf hes2.toExtSym out ho
+  exact C09_char _ h1 h2 join hj reduce censor
 
 end CompressGraph
